@@ -22,13 +22,15 @@ static struct { uint8_t *p; size_t n; int pat; } shadow[MAXP]; static size_t nsh
 static size_t pat_counter;
 static void check_contents(void);
 static int sparse;      /* obs=sparse: used/free are queried only on `observe` */
+static int quiet;       /* phys=quiet: the region bytes are printed as a checksum (FNV-1a 64 of the list text), the full dump on `observe` */
+static int observing;
 /* private view of used bytes (no call into the library) for the walkers and the shadow list */
 static size_t priv_used(void) { return (size_t)(pool->free_ptr - pool->low_ptr); }
 
 static void shim_reset(void) {
     if (raw) __real_free(raw);
     if (pstruct) __real_free(pstruct);
-    raw = region = pstruct = NULL; pool = NULL; nptrs = nshadow = 0; pat_counter = 0; sparse = 0;
+    raw = region = pstruct = NULL; pool = NULL; nptrs = nshadow = 0; pat_counter = 0; sparse = 0; quiet = 0;
 }
 static void o_ptr(uint8_t *p) {
     if (!p) o(" p=NULL"); else o(" p=%lld", (long long)(p - region));
@@ -41,7 +43,15 @@ static void phys(void) {
     if (!pool) { o("-"); return; }
     o("size=%zu free=%zu high=%zu ", pool->size, (size_t)(pool->free_ptr - pool->low_ptr),
       (size_t)(pool->high_ptr - pool->low_ptr));
-    O_LIST("bytes"); for (size_t i = 0; i < rsize; i++) o_item(region[i]); o_end();
+    if (quiet && !observing) {
+        /* FNV-1a 64 over the text "b0,b1,...,bn" of the list that the full mode prints */
+        unsigned long long h = 14695981039346656037ULL; char t[8];
+        for (size_t i = 0; i < rsize; i++) {
+            int k = snprintf(t, sizeof t, i ? ",%u" : "%u", (unsigned)region[i]);
+            for (int j = 0; j < k; j++) { h ^= (unsigned char)t[j]; h *= 1099511628211ULL; }
+        }
+        o("bytes=#%llu", h);
+    } else { O_LIST("bytes"); for (size_t i = 0; i < rsize; i++) o_item(region[i]); o_end(); }
     /* L2 walkers */
     for (size_t i = 0; i < CAN + roff; i++) if (raw[i] != CANARY) { o(" WALK=canary-before"); break; }
     for (size_t i = 0; i < CAN; i++) if (region[rsize + i] != CANARY) { o(" WALK=canary-after"); break; }
@@ -90,6 +100,7 @@ static void do_op(Cmd *c) {
         shim_reset();
         rsize = kv_u64(c, "size", 16); roff = kv_u64(c, "off", 0);
         sparse = !strcmp(kv_str(c, "obs", "full"), "sparse");
+        quiet = !strcmp(kv_str(c, "phys", "full"), "quiet");
         raw = __real_malloc(CAN + roff + rsize + CAN);
         memset(raw, CANARY, CAN + roff + rsize + CAN);
         region = raw + CAN + roff;
@@ -100,7 +111,7 @@ static void do_op(Cmd *c) {
         o_stat(st);
     } else if (!pool) { o("st=- nosession"); o_sep(); o("-"); return;
     } else if (is_op(c, "observe")) {
-        o("st=-"); obs_sweep(); o_sep(); phys(); return;
+        o("st=-"); obs_sweep(); o_sep(); observing = 1; phys(); observing = 0; return;
     } else if (is_op(c, "malloc")) {
         size_t n = pos_u64(c, 0), u = priv_used();
         uint8_t *p = cc_static_pool_malloc(n, pool);
